@@ -330,6 +330,15 @@ def f_second_singleton(tree):
                 cp = Node(nd.head, [], nd.body)
                 t2 = insert(tree, p[:-1] + (s,), cp)
                 yield label, "sibling:%d" % s, t2, later(t2, nd.uid, cp.uid), cp.uid, earlier(t2, nd.uid, cp.uid)
+        if nd.kind in ("Headers", "Body") and par is not None and par.kind == "Request" and len(p) >= 2:
+            # a method's request is ONE object however many Request directives spell it: the second singleton may come in a
+            # second Request directive of the same method
+            for before in (False, True):
+                cp = Node(nd.head, [], nd.body)
+                req = n("Request", cp)
+                t2 = insert(tree, p[:-2] + (p[-2] + (0 if before else 1),), req)
+                yield ("second-%s-in-a-second-request" % nd.kind.lower(), "before" if before else "after", t2,
+                       later(t2, nd.uid, cp.uid), cp.uid, earlier(t2, nd.uid, cp.uid))
         if nd.kind in ("Request", "RESP") and len(nd.head.split(" ")) > 1 and not any(k.kind == "Body" for k in nd.kids):
             for s in range(len(nd.kids) + 1):
                 cp = n("Body any")
